@@ -211,6 +211,23 @@ pub fn variants(c: &Case, thorough: bool) -> Vec<Variant> {
             out.push(Variant { key: format!("end-if-without-semicolon/before-{}", next), what: format!("END_IF (lexeme {}) written without `;`", i), text: spell_lx(&m) });
         }
     }
+    // every END_IF at once without its `;`
+    {
+        let mut m: Vec<Lexeme> = vec![];
+        let mut removed = 0;
+        let mut i = 0;
+        while i < n {
+            m.push(lx[i].clone());
+            if lx[i].text.eq_ignore_ascii_case("END_IF") && i + 1 < n && lx[i + 1].text == ";" {
+                i += 1; // skip the semicolon
+                removed += 1;
+            }
+            i += 1;
+        }
+        if removed >= 2 {
+            out.push(Variant { key: format!("end-if-without-semicolon/all-{}-at-once", removed.min(3)), what: format!("all {} END_IF written without `;`", removed), text: spell_lx(&m) });
+        }
+    }
     out
 }
 
